@@ -11,6 +11,7 @@ import os
 import subprocess
 import sys
 import time
+import threading
 from concurrent.futures import ThreadPoolExecutor
 
 VERIF = os.path.dirname(os.path.dirname(os.path.dirname(os.path.abspath(__file__))))
@@ -307,7 +308,7 @@ def ir_json(run, src_text, name, ndebug=True, extra=()):
     outp = os.path.join(CACHE, "%s.%s.ir.json" % (name, key))
     if os.path.exists(outp) and not os.environ.get("YV_NOCACHE"):
         return outp
-    wd = os.path.join(OUT, "tmp", "%s.%s" % (name, key))
+    wd = os.path.join(OUT, "tmp", "%s.%s.%d.%d" % (name, key, os.getpid(), threading.get_ident() % 100000))
     os.makedirs(wd, exist_ok=True)
     src = os.path.join(wd, name + ".cpp")
     with open(src, "w") as f:
@@ -348,7 +349,7 @@ def ir_json_file(run, path, flags, name):
         return outp
     if os.path.exists(outp + ".fail"):
         return None
-    wd = os.path.join(OUT, "tmp", "%s.%s" % (name, key))
+    wd = os.path.join(OUT, "tmp", "%s.%s.%d.%d" % (name, key, os.getpid(), threading.get_ident() % 100000))
     os.makedirs(wd, exist_ok=True)
     ll = os.path.join(wd, "w.ll")
     r = sh([CXX] + list(flags) + ["-w", "-O0", "-Xclang", "-disable-O0-optnone", "-fno-discard-value-names", "-g", "-S", "-emit-llvm", path, "-o", ll])
@@ -387,7 +388,7 @@ def ast_json(run, src_text, name, ndebug=True, funcs="", extra=(), cfg="", refs=
     outp = os.path.join(CACHE, "%s.%s.ast.json" % (name, key))
     if os.path.exists(outp) and not os.environ.get("YV_NOCACHE"):
         return outp
-    wd = os.path.join(OUT, "tmp", "%s.%s" % (name, key))
+    wd = os.path.join(OUT, "tmp", "%s.%s.%d.%d" % (name, key, os.getpid(), threading.get_ident() % 100000))
     os.makedirs(wd, exist_ok=True)
     src = os.path.join(wd, name + ".cpp")
     with open(src, "w") as f:
